@@ -171,21 +171,20 @@ def attach (base : Glyph) (baseAnchor : Anchor) (mark : Glyph) (markRec : MarkRe
   let y ← fit16 (base.yoff + baseAnchor.y - markRec.y)
   pure { mark with xoff := x, yoff := y }
 
-/-- the glyph to attach to: `found` is what the sentence "look backward in the glyph string from
-the mark to the preceding base glyph [preceding mark]" designates, `covered` the nearest
-preceding glyph the subtable has an anchor row for.  The text does not say what happens when an
-uncovered candidate lies in between, so the outcome is defined only when the two agree. -/
-def attachTarget (isCandidate : TG → Bool) (cov : Cov) (pre : List TG) : R (Option (Nat × TG × Nat)) :=
-  match pre.findIdx? fun t => (covGet cov t.g.gid).isSome with
-  | none => pure none
+/-- the glyph to attach to: "to identify the base glyph that combines with a mark, the client
+must look backward in the glyph string from the mark to the preceding base glyph" — the nearest
+preceding glyph that is a candidate (mark-to-base: not a mark; mark-to-mark: not skipped by the
+lookup flags).  If the subtable has no anchors for that glyph (it is not covered) the mark is not
+attached; in particular it is never attached to a glyph further back. -/
+def attachTarget (isCandidate : TG → Bool) (cov : Cov) (pre : List TG) : Option (Nat × TG × Nat) :=
+  match pre.findIdx? isCandidate with
+  | none => none
   | some k =>
-    if pre.findIdx? isCandidate == some k then
-      match pre[k]? with
-      | some t => match covGet cov t.g.gid with
-        | some i => pure (some (k, t, i))
-        | none => pure none
-      | none => pure none
-    else undef "mark attachment: an uncovered glyph lies between the mark and the covered glyph"
+    match pre[k]? with
+    | some t => match covGet cov t.g.gid with
+      | some i => some (k, t, i)
+      | none => none
+    | none => none
 
 /-! ## one subtable at one position -/
 
@@ -208,7 +207,7 @@ def markAttach (isCandidate : TG → Bool) (markCov baseCov : Cov) (marks : List
   | none => pure none
   | some mi => do
     let mr ← need marks[mi]? "mark coverage index outside the mark array"
-    match ← attachTarget isCandidate baseCov pre with
+    match attachTarget isCandidate baseCov pre with
     | none => pure none
     | some (k, base, bi) =>
       let row ← need bases[bi]? "base coverage index outside the base array"
@@ -389,9 +388,10 @@ def matchSub (kp : Nat → Bool) (gd : Gdef) (pre : List TG) (cur : TG) (post : 
   /- GPOS 3 (cursive attachment) is not among the lookup types of the property -/
   | .gpos31 _ _ => undef "cursive attachment is outside the property"
   /- GPOS 4.1 mark-to-base: "look backward in the glyph string from the mark to the preceding base
-     glyph" — the nearest preceding glyph that is not a mark -/
-  | .gpos41 markCov baseCov marks bases =>
-    markAttach (fun t => classOf gd.glyphClass t.g.gid != 3) markCov baseCov marks bases pre cur post
+     glyph" — the nearest preceding glyph that is not a mark (GDEF class 3; `gclass` is the GDEF
+     glyph class definition, see `tablesOk`) -/
+  | .gpos41 markCov baseCov marks bases gclass =>
+    markAttach (fun t => classOf gclass t.g.gid != 3) markCov baseCov marks bases pre cur post
   /- GPOS 6.1 mark-to-mark: the preceding mark, i.e. the nearest preceding glyph the lookup does
      not skip -/
   | .gpos61 mark1Cov mark2Cov marks1 marks2 =>
@@ -523,8 +523,14 @@ def subtableOk : Subtable → Bool
   | .gpos22 cov _ _ _ => setOk cov
   | _ => true
 
+/-- the glyph classes a mark-to-base subtable was given are those of the GDEF table -/
+def classesOk (gd : Gdef) : Subtable → Bool
+  | .gpos41 _ _ _ _ gclass => gclass == gd.glyphClass
+  | _ => true
+
 def tablesOk (ll : LookupList) (gd : Gdef) : Bool :=
-  gd.markSets.all setOk && ll.all fun lk => lk.subtables.all subtableOk
+  ((ll.all fun lk => lk.subtables.all (classesOk gd)) && gd.markSets.all setOk) &&
+    ll.all fun lk => lk.subtables.all subtableOk
 
 /-! ## the reference shaper -/
 
@@ -540,8 +546,7 @@ determine the outcome: the reference shaper returns a value.  It excludes: malfo
 (indices outside their arrays, empty sequences, sets with non-member entries, lookups mixing
 type 8 with other types, lookup or sequence indices out of range), ligatures whose components are
 tagged differently by an enclosing match (testcases section 4), more nested lookups than
-implementations run, cursive attachment, unimplemented value-record fields, int16 overflow,
-and mark attachment across an uncovered candidate glyph. -/
+implementations run, cursive attachment, unimplemented value-record fields and int16 overflow. -/
 def Defined (B : Nat) (ll : LookupList) (gd : Gdef) (lookups : List Nat) (seq : List Glyph) : Bool :=
   match shape B ll gd lookups seq with
   | .ok _ => true
